@@ -40,6 +40,7 @@ PL = "hiten.algorithms.corrector.stepping.plain"
 IF = "hiten.algorithms.corrector.interfaces"
 OP = "hiten.algorithms.corrector.operators"
 SO = "hiten.algorithms.types.services.orbits"
+ST = "hiten.algorithms.corrector.stepping"
 
 
 class _Obj:
@@ -163,7 +164,9 @@ def _newton(chk):
                  "run: stepper receives current_norm == norm(residual(x))",
                  "run: stepper built from the request's own residual_fn / norm_fn / max_delta",
                  fn_label + "#loop0.init[true]", fn_label + "#loop0.preserve[true]"]:
-        chk.obl(name, "K2 path VC", fns, "B1 z3 (B2 cvc5 on unknown)", lambda name=name: explore().verdict(name),
+        chk.obl(name, "K2 path VC", fns, "B1 z3 (B2 cvc5 on unknown)",
+                lambda name=name: explore().verdict(name, replay=_REPLAY_RUN if "residual_norm" in name or "escapes" in name
+                                                    else None),
                 sample="for every path of the real run(): assumptions AND path-condition => " + name)
     chk.cover("run: normal return reachable", "run: normal return" in explore().covers)
     chk.cover("run: ConvergenceError path reachable", "run: raises ConvergenceError" in explore().covers)
@@ -196,6 +199,35 @@ def _newton(chk):
         ex2.verdict("canary")
     chk.canary("canary: run returns residual_norm < tol/2", canary)
     return ex
+
+
+_REPLAY_RUN = """
+import logging
+import numpy as np
+logging.disable(logging.CRITICAL)
+from hiten.algorithms.corrector.backends.newton import _NewtonBackend
+from hiten.algorithms.corrector.stepping import make_armijo_stepper, make_plain_stepper
+from hiten.algorithms.corrector.types import CorrectorInput
+from hiten.algorithms.types.exceptions import ConvergenceError
+bad = False
+# histories: cap exhausted with a small step cap (5 and 1 attempts), immediate convergence, ordinary convergence
+for factory in (make_armijo_stepper, make_plain_stepper):
+    for x0, attempts, cap in ((3.0, 5, 1e-2), (3.0, 1, 1e-2), (2.0, 3, 1e-2), (2.1, 30, None)):
+        tol = 1e-10
+        rq = CorrectorInput(initial_guess=np.array([x0]), residual_fn=lambda x: np.array([x[0] ** 3 - 8.0]),
+                            jacobian_fn=lambda x: np.array([[3.0 * x[0] ** 2]]), norm_fn=None, max_attempts=attempts,
+                            tol=tol, max_delta=cap, fd_step=1e-8)
+        try:
+            out = _NewtonBackend(stepper_factory=factory()).run(request=rq)
+        except ConvergenceError as e:
+            print(factory.__name__, x0, attempts, "raised ConvergenceError"); continue
+        except Exception as e:
+            print(factory.__name__, x0, attempts, "raised", type(e).__name__); bad = True; continue
+        true = abs(out.x_corrected[0] ** 3 - 8.0)
+        print(factory.__name__, x0, attempts, "returned x =", out.x_corrected, "reported |R| =", out.residual_norm, "true |R| =", true)
+        bad = bad or not (true < tol) or abs(out.residual_norm - true) > 1e-12
+print("CONFIRMED" if bad else "NOT-CONFIRMED")
+"""
 
 
 def _armijo(chk):
@@ -534,6 +566,231 @@ def _wiring(chk):
             "B3 sympy normal form", th_period)
 
 
+# ---- mirror configuration of the orbit families (what "residual == 0" means for periodicity) ---------------------------
+# T5 (mirror theorem, trusted): if R is a reversing symmetry of the field (f(Rx) = -R f(x)) and a trajectory meets Fix(R)
+# at t = 0 and again at t = tau, it is periodic with period 2*tau.  Meeting the fixed sets of two DIFFERENT reversing
+# symmetries gives period 4*tau.  The library reports period = 2 * t_event (proved in the wiring obligations), so a
+# family's correction set-up is sound iff:  (a) the zero set enforced at the event (event coordinate + residual indices
+# with target 0) is Fix(R) for one reversing symmetry R of the real field, (b) the initial guess lies in the SAME Fix(R),
+# (c) the controls the corrector is allowed to change do not move the start out of Fix(R).
+SYMM = {"R1 (x,-y,z,-vx,vy,-vz): reflection through the xz-plane": ((1, -1, 1, -1, 1, -1), frozenset({1, 3, 5})),
+        "R2 (x,-y,-z,-vx,vy,vz): rotation about the x-axis": ((1, -1, -1, -1, 1, 1), frozenset({1, 2, 3}))}
+NAMES6 = ("X", "Y", "Z", "VX", "VY", "VZ")
+
+_EXTRACT = """
+import warnings, json
+warnings.filterwarnings("ignore")
+import numpy as np
+from hiten import System
+s = System.from_bodies("earth", "moon")
+out = {}
+for lp in (1, 2):
+    p = s.get_libration_point(lp)
+    for fam, kw in (("halo", dict(amplitude_z=0.05, zenith="southern")), ("lyapunov", dict(amplitude_x=0.02)),
+                    ("vertical", dict(amplitude_z=0.05))):
+        o = p.create_orbit(fam, **kw)
+        cfg = o.correction_config
+        g = np.asarray(o.initial_state, dtype=float)
+        # the section of the half-period event: the _PlaneEvent closed over by the crossing finder
+        pe = [c.cell_contents for c in cfg.event_func.__closure__ if hasattr(c.cell_contents, "normal")][0]
+        out["L%d/%s" % (lp, fam)] = dict(
+            residual=[int(i) for i in cfg.residual_indices], control=[int(i) for i in cfg.control_indices],
+            target=[float(x) for x in cfg.target], guess_zero=[int(i) for i in range(6) if g[i] == 0.0],
+            event_lin=[float(v) for v in pe.normal], event0=float(pe.offset),
+            cls=type(o).__name__)
+print("JSON" + json.dumps(out))
+print("NOT-CONFIRMED")
+"""
+
+_REPLAY_FAMILY = """
+import warnings
+warnings.filterwarnings("ignore")
+import numpy as np
+from hiten import System
+from hiten.algorithms.dynamics.base import _propagate_dynsys
+s = System.from_bodies("earth", "moon")
+o = s.get_libration_point(LP).create_orbit("FAM", **KW)
+o.correct()
+x0, T = np.array(o.initial_state, dtype=float), float(o.period)
+sol = _propagate_dynsys(s.dynsys, x0, 0.0, T, forward=1, steps=2001, method="adaptive", order=8)
+err = float(np.max(np.abs(sol.states[-1] - x0)))
+print("correct() reported success; period", T, " |x(T) - x0| =", err)
+print("CONFIRMED" if err > 1e-4 else "NOT-CONFIRMED")
+"""
+
+
+def _mirror_configs(chk):
+    import hiten.algorithms.dynamics.rtbp as rtbp
+    from pyvc.core import native
+    from pyvc.ident import Reducer, require_identity
+
+    def th_symm():
+        with exact() as alg:
+            mu = sp.Symbol("mu", positive=True)
+            st = sp.symbols("x y z vx vy vz", real=True)
+            red = Reducer(alg)
+            f = vals(rtbp._crtbp_accel(xarr(st), X(mu)))
+            for name, (sg, _) in SYMM.items():
+                fr = vals(rtbp._crtbp_accel(xarr([a * b for a, b in zip(sg, st)]), X(mu)))
+                for i in range(6):
+                    require_identity(red, fr[i], -sg[i] * f[i], key_prefix=f"{name}: component {i} of f(Rx) + R f(x)")
+    chk.obl("R1 and R2 are reversing symmetries of the real field: _crtbp_accel(R x) == -R _crtbp_accel(x) for all mu, x",
+            "K1 identity", ["hiten.algorithms.dynamics.rtbp:_crtbp_accel"], "B3 sympy normal form", th_symm)
+
+    st = {}
+
+    def extract():
+        if "d" not in st:
+            out = native(_EXTRACT, timeout=1800)
+            line = [l for l in out.splitlines() if l.startswith("JSON")][0]
+            import json
+            st["d"] = json.loads(line[4:])
+        return st["d"]
+
+    kws = {"halo": "dict(amplitude_z=0.05, zenith='southern')", "lyapunov": "dict(amplitude_x=0.02)",
+           "vertical": "dict(amplitude_z=0.05)"}
+    for lp in (1, 2):
+        for fam in ("halo", "lyapunov", "vertical"):
+            def th(lp=lp, fam=fam):
+                c = extract()[f"L{lp}/{fam}"]
+                ev = [i for i, v in enumerate(c["event_lin"]) if v != 0.0]
+                if len(ev) != 1 or c["event0"] != 0.0:
+                    raise Refuted(f"{fam}: event is not a coordinate plane through the origin", str(c))
+                if any(t != 0.0 for t in c["target"]):
+                    raise Refuted(f"{fam}: residual target is not zero", str(c["target"]))
+                enforced = frozenset(ev) | frozenset(c["residual"])
+                guess0 = frozenset(c["guess_zero"])
+                fmt = lambda ss: "{" + ",".join(NAMES6[i] for i in sorted(ss)) + "}"
+                match = [n for n, (_, fix) in SYMM.items() if fix == enforced]
+                rp = _REPLAY_FAMILY.replace("LP", str(lp)).replace("FAM", fam).replace("KW", kws[fam])
+                if not match:
+                    raise Refuted(f"{fam}: zero set enforced at the event {fmt(enforced)} is not the fixed set of a reversing "
+                                  f"symmetry", str(c), replay=rp)
+                fix = SYMM[match[0]][1]
+                if not guess0 >= fix:
+                    raise Refuted(f"{fam}: the start lies on a different symmetry set than the event: start zero set "
+                                  f"{fmt(guess0)}, enforced at the event {fmt(enforced)} = Fix({match[0].split(':')[0]}); the "
+                                  f"flight time between them is a QUARTER period, but period = 2*t_event is reported",
+                                  str(c), replay=rp)
+                if fix & frozenset(c["control"]):
+                    raise Refuted(f"{fam}: control indices {fmt(c['control'])} move the start out of {fmt(fix)}", str(c), replay=rp)
+                return f"{c['cls']}: start and event on Fix({match[0].split(':')[0]}) = {fmt(fix)}, controls {fmt(c['control'])}"
+            chk.obl(f"L{lp} {fam}: start, event section + residuals and controls form a mirror configuration of ONE reversing "
+                    f"symmetry (so 2*t_event is the period)", "K5 closed (family configuration vs T5)",
+                    [SO + f":_{fam.capitalize()}OrbitCorrectionService._default_correction_config"],
+                    "B4 evaluation of the real configuration", th)
+
+
+def _config_chain(chk):
+    """the CONFIGURED tolerance, attempt limit and step cap are the ones the Newton driver and the line search use"""
+    import hiten.algorithms.corrector.interfaces as ci
+    import hiten.algorithms.corrector.stepping as stp
+    import hiten.algorithms.corrector.stepping.armijo as arm
+    import hiten.algorithms.corrector.stepping.plain as pl
+
+    def th_steppers():
+        res, nrm = (lambda x: x), (lambda r: 0.0)
+        for cap in (1.25e-3, 0.75, None):
+            seen = []
+            saved = arm._ArmijoLineSearch.__call__
+            arm._ArmijoLineSearch.__call__ = lambda self_, **kw: seen.append((self_, kw)) or ("X", 0.0, 1.0)
+            try:
+                step = stp.make_armijo_stepper(alpha_reduction=0.37, min_alpha=3e-3, armijo_c=0.21)(res, nrm, cap)
+                step("x0", "delta", 7.0)
+            finally:
+                arm._ArmijoLineSearch.__call__ = saved
+            if len(seen) != 1:
+                raise Refuted("armijo stepper does not perform its step through _ArmijoLineSearch", str(len(seen)))
+            ls, kw = seen[0]
+            got = (ls.residual_fn, ls.norm_fn, ls.max_delta, ls.alpha_reduction, ls.min_alpha, ls.armijo_c)
+            want = (res, nrm, cap, 0.37, 3e-3, 0.21)
+            if got != want or kw != {"x0": "x0", "delta": "delta", "current_norm": 7.0}:
+                raise Refuted(f"line search configured with (residual, norm, max_delta, alpha_reduction, min_alpha, armijo_c) = "
+                              f"{got[2:]} instead of the requested {want[2:]}", f"call kwargs {kw}",
+                              inputs={"max_delta": cap}, replay=_REPLAY_CAP)
+        # plain stepper: cap handed to _make_plain_stepper unchanged
+        calls = []
+        saved = pl._CorrectorPlainStep._make_plain_stepper
+        pl._CorrectorPlainStep._make_plain_stepper = staticmethod(lambda r, n, m: calls.append((r, n, m)) or "STEP")
+        try:
+            out = stp.make_plain_stepper()(res, nrm, 1.25e-3)
+        finally:
+            pl._CorrectorPlainStep._make_plain_stepper = saved
+        if out != "STEP" or calls != [(res, nrm, 1.25e-3)]:
+            raise Refuted("plain stepper factory does not forward (residual, norm, max_delta)", str(calls))
+    chk.obl("stepper factories: the line search that performs the step holds the REQUESTED residual, norm, step cap and Armijo "
+            "parameters (its own contract - update <= self.max_delta, monotone norm - is proved above)", "K2 wiring",
+            [ST + ":make_armijo_stepper", ST + ":make_plain_stepper", AR + ":_ArmijoStep._build_line_searcher",
+             PL + ":_CorrectorPlainStep._build_line_searcher"], "B4 execution with a recorder", th_steppers)
+
+    def th_interface():
+        seen = {}
+
+        class Ops:
+            def __init__(self, **kw):
+                seen["ops"] = kw
+
+            def build_residual_fn(self):
+                return "RES"
+
+            def build_jacobian_fn(self):
+                return "JAC"
+        saved = ci._SingleShootingOrbitOperators
+        ci._SingleShootingOrbitOperators = Ops
+        try:
+            conv = _Obj(max_attempts=17, tol=3.5e-9, max_delta=4.5e-3)
+            opts = _Obj(forward=-1, base=_Obj(convergence=conv, integration=_Obj(order=6, steps=123),
+                                              numerical=_Obj(fd_step=2.5e-7)))
+            cfg = _Obj(control_indices=(0, 4), residual_indices=(3, 5), target=(0.0, 0.0), extra_jacobian="XJ",
+                       event_func="EV", integration=_Obj(method="adaptive"), numerical=_Obj(finite_difference=False))
+            itf = _Obj(_norm_fn=lambda: "NORM", _initial_guess=lambda d, c: "GUESS")
+            dom = _Obj(initial_state="X0", period=None)
+            I = ci._OrbitCorrectionInterface
+            prob = I.create_problem(itf, domain_obj=dom, config=cfg, options=opts, stepper_factory="SF")
+            call = I.to_backend_inputs(itf, prob)
+        finally:
+            ci._SingleShootingOrbitOperators = saved
+        rq = call.request
+        got = dict(tol=rq.tol, max_attempts=rq.max_attempts, max_delta=rq.max_delta, fd_step=rq.fd_step,
+                   residual_fn=rq.residual_fn, jacobian_fn=rq.jacobian_fn, norm_fn=rq.norm_fn, initial_guess=rq.initial_guess,
+                   stepper_factory=call.kwargs.get("stepper_factory"))
+        want = dict(tol=3.5e-9, max_attempts=17, max_delta=4.5e-3, fd_step=2.5e-7, residual_fn="RES", jacobian_fn="JAC",
+                    norm_fn="NORM", initial_guess="GUESS", stepper_factory="SF")
+        if got != want:
+            bad = {k: (got[k], want[k]) for k in want if got[k] != want[k]}
+            raise Refuted("backend request differs from the configured options: " + str(bad), str(got))
+        o = seen["ops"]
+        wops = dict(domain_obj=dom, control_indices=(0, 4), residual_indices=(3, 5), target=(0.0, 0.0), extra_jacobian="XJ",
+                    event_func="EV", forward=-1, method="adaptive", order=6, steps=123)
+        if o != wops:
+            raise Refuted("shooting operators built from other values than the configured ones",
+                          str({k: (o.get(k), wops[k]) for k in wops if o.get(k) != wops[k]}))
+    chk.obl("create_problem / to_backend_inputs: the backend request carries the configured tol, max_attempts, max_delta, fd_step, "
+            "the operators' residual / Jacobian and the stepper factory; operators are built from the configured indices, "
+            "target, event and integration settings", "K2 wiring",
+            [IF + ":_OrbitCorrectionInterface.create_problem", IF + ":_OrbitCorrectionInterface.to_backend_inputs"],
+            "B4 execution with a recorder", th_interface)
+
+
+_REPLAY_CAP = """
+import numpy as np
+from hiten.algorithms.corrector.stepping import make_armijo_stepper
+res = lambda x: np.array([x[0] ** 3 - 8.0])           # Newton steps from x = 3 are large
+nrm = lambda r: float(np.linalg.norm(r))
+cap = 1.25e-3
+step = make_armijo_stepper()(res, nrm, cap)
+x = np.array([3.0])
+worst = 0.0
+for _ in range(5):
+    d = -res(x) / (3.0 * x ** 2)
+    xn, rn, a = step(x, d, nrm(res(x)))
+    worst = max(worst, float(np.max(np.abs(xn - x))))
+    x = xn
+print("configured cap", cap, "largest update", worst)
+print("CONFIRMED" if worst > cap * (1 + 1e-9) else "NOT-CONFIRMED")
+"""
+
+
 def run(chk):
     loader.install()
     chk.under_contract(
@@ -558,3 +815,5 @@ def run(chk):
     _armijo(chk)
     _plain(chk)
     _wiring(chk)
+    _mirror_configs(chk)
+    _config_chain(chk)
